@@ -218,6 +218,35 @@ pub fn c10(a: &Args) {
             Err(p) => out.ev(&json!({"ev":"cells","src":"font-psf2","what":format!("glyphs={n}"),"r":"panic","site":panic_site(&p),"codes":[]})),
         }
     }
+    // (2b) glyph tables where the number of glyph slices differs from the DECLARED count: PSF2 with glyph size > height (the
+    //      data is cut by height), PSF1 (256 / 512 declared) followed by more data than its glyphs need
+    {
+        let mut fonts: Vec<(String, Vec<u8>)> = vec![];
+        for (len, cs, h) in [(0x6C01u32, 2u32, 1u32), (0x3601, 4, 1), (0xD800, 2, 1), (0x100, 255, 1), (0x6C00, 2, 1)] {
+            let mut d = vec![];
+            for v in [0x864a_b572u32, 0, 32, 0, len, cs, h, 8] { d.extend(v.to_le_bytes()); }
+            d.extend(std::iter::repeat(0x5Au8).take((len * cs) as usize));
+            fonts.push((format!("psf2:len={len:#x}:cs={cs}:h={h}"), d));
+        }
+        for (mode, cs, extra) in [(0u8, 1u8, 0xD800usize + 2), (2, 1, 0xD800 + 2), (0, 1, 0xD7FF), (0, 2, 2 * 0xD800 + 4)] {
+            let mut d = vec![0x36, 0x04, mode, cs];
+            d.extend(std::iter::repeat(0xA5u8).take(extra));
+            fonts.push((format!("psf1:mode={mode}:cs={cs}:bytes={extra}"), d));
+        }
+        for (what, d) in fonts {
+            if !u.begin(&mut out, "font-slices", &what) { continue; }
+            match guard(|| BitFont::from_bytes("slices", &d)) {
+                Ok(Ok(f)) => {
+                    let mut codes: Vec<u32> = f.glyphs.keys().map(|c| *c as u32).collect();
+                    codes.sort_unstable();
+                    let keep: Vec<u32> = codes.iter().copied().filter(|c| *c >= 0xD700 || *c % 4096 == 0).collect();
+                    out.ev(&json!({"ev":"cells","src":"font-slices","what":what,"r":"ok","n":codes.len(),"codes":keep}));
+                }
+                Ok(Err(_)) => out.ev(&json!({"ev":"cells","src":"font-slices","what":what,"r":"err","codes":[]})),
+                Err(p) => out.ev(&json!({"ev":"cells","src":"font-slices","what":what,"r":"panic","site":panic_site(&p),"codes":[]})),
+            }
+        }
+    }
     // (3) IcyDraw: crafted character fields in the first chunk and in a continuation chunk; crafted title bytes
     let opts = { let mut o = SaveOptions::new(); o.lossles_output = true; o };
     let marker = '\u{10FFFD}';
